@@ -9,7 +9,9 @@ import base64
 
 from enum import Enum, IntEnum
 
-from hyperframe.exceptions import InvalidPaddingError
+from hyperframe.exceptions import (
+    InvalidDataError, InvalidFrameError, InvalidPaddingError
+)
 from hyperframe.frame import (
     GoAwayFrame, WindowUpdateFrame, HeadersFrame, DataFrame, PingFrame,
     PushPromiseFrame, SettingsFrame, RstStreamFrame, PriorityFrame,
@@ -555,25 +557,25 @@ class H2Connection:
         )
 
         frame_data = None
-        # Begin by getting the preamble in place.
-        self.initiate_connection()
-
-        if self.config.client_side:
-            f = SettingsFrame(0)
-            for setting, value in self.local_settings.items():
-                f.settings[setting] = value
-
-            frame_data = f.serialize_body()
-            frame_data = base64.urlsafe_b64encode(frame_data)
-        elif settings_header:
-            # We have a settings header from the client. This needs to be
-            # applied, but we want to throw away the ACK. We do this by
-            # inserting the data into a Settings frame and then passing it to
-            # the state machine, but ignoring the return value.
+        settings_frame = None
+        if not self.config.client_side and settings_header:
+            # We have a settings header from the client. Decode it before
+            # anything else happens: a header field that is not a SETTINGS
+            # payload is the peer's protocol error, not a hyperframe one.
             settings_header = base64.urlsafe_b64decode(settings_header)
-            f = SettingsFrame(0)
-            f.parse_body(settings_header)
-            self._receive_settings_frame(f)
+            settings_frame = SettingsFrame(0)
+            try:
+                settings_frame.parse_body(settings_header)
+            except (InvalidFrameError, InvalidDataError):
+                raise ProtocolError("Invalid HTTP2-Settings header field")
+
+        # Everything that can be refused comes before the preamble is written,
+        # so that a call that raises leaves nothing in the output buffer.
+        if settings_frame is not None:
+            # The settings need to be applied, but we want to throw away the
+            # ACK. We do this by passing the frame to the state machine, but
+            # ignoring the return value.
+            self._receive_settings_frame(settings_frame)
 
         # Set up appropriate state. Stream 1 in a half-closed state:
         # half-closed(local) for clients, half-closed(remote) for servers.
@@ -588,6 +590,18 @@ class H2Connection:
         # Set up stream 1.
         self._begin_new_stream(stream_id=1, allowed_ids=AllowedStreamIDs.ODD)
         self.streams[1].upgrade(self.config.client_side)
+
+        # Finally, get the preamble in place.
+        self.initiate_connection()
+
+        if self.config.client_side:
+            f = SettingsFrame(0)
+            for setting, value in self.local_settings.items():
+                f.settings[setting] = value
+
+            frame_data = f.serialize_body()
+            frame_data = base64.urlsafe_b64encode(frame_data)
+
         return frame_data
 
     def _get_or_create_stream(self, stream_id, allowed_ids):
